@@ -91,6 +91,8 @@ fn lexical_alphabet() -> Vec<&'static str> {
         "ifchanged", "endifchanged", "assign", "include", "render", "cycle", "increment", "decrement", "break", "continue",
         "==", "!=", "<>", "<", ">", "<=", ">=", "contains", "and", "or", "=", "|", ":", ",", ".", "..", "(", ")", "[", "]",
         "1", "-1", "+1", "1.5", "12345678901234567890", "'s'", "\"d\"", "'", "\"", "true", "nil", "empty", "x", "a.b", "é", "\t", " ", "\n",
+        // more non-ASCII text (3- and 4-byte scalars, a combining mark) and identifiers that differ from keywords by case only
+        "日本", "€", "😀", "e\u{301}", "True", "FALSE", "Nil", "X_1",
     ]
 }
 
